@@ -134,6 +134,41 @@ def r3(repo, run):
             run.violation('C08.R3', fi, 'override of _require_all_new', 'new-path check overridden in %s' % fi.cls.name)
 
 
+CMD_CASES = [
+    ('a.b=1', ['a', 'b'], '1'),
+    ('grid[0][2]=9', ['grid', '0', '2'], '9'),
+    (' lst[1] = [1, 2] ', ['lst', '1'], None),
+    ('x.y[3].z[0][1]=v', ['x', 'y', '3', 'z', '0', '1'], 'v'),
+    ('top=5', ['top'], '5'),
+]
+
+
+def _cmdline(repo, args, **kw):
+    pc = repo.func('Config.process_cmdline')
+    f = FDE(repo)
+    r = fde_guard(lambda: f.call(pc, ('class', 'Config'), list(args), **kw))
+    if r.raised or not isinstance(r.ret, (tuple, list)) or len(r.ret) != 3:
+        raise AnalysisError('process_cmdline: not evaluable on %s (%s)' % (args, r.raised))
+    return r.ret
+
+
+def _key_chain(text):
+    """(root tag, chain of single keys, text of the innermost value) of a flow-mapping document, read with PyYAML's composer
+    (no constructors involved; PyYAML is the trusted reader of the text the evaluated function produced)"""
+    import yaml as _yaml
+    try:
+        node = _yaml.compose(text, Loader=_yaml.SafeLoader)
+    except Exception as e:  # noqa
+        return None, None, 'unparsable: %s' % str(e).split('\n')[0][:60]
+    tag = node.tag
+    chain = []
+    while isinstance(node, _yaml.MappingNode) and len(node.value) == 1:
+        k, v = node.value[0]
+        chain.append(k.value if isinstance(k, _yaml.ScalarNode) else '<complex key>')
+        node = v
+    return tag, chain, (node.value if isinstance(node, _yaml.ScalarNode) else None)
+
+
 def r4(repo, run):
     table = check_flag_tags(repo, run, 'C08.R4', tags={'!new', '!notnew'})
     pc = repo.func('Config.process_cmdline')
@@ -148,51 +183,52 @@ def r4(repo, run):
         run.violation('C08.R4', pc, 'default_inline_tag=%r' % tag, 'command-line overrides are not wrapped in a tag that forbids new paths')
     else:
         run.ok('C08.R4', pc, 'default_inline_tag=%r -> allow_new=False' % tag)
-    # the tag is actually emitted for inline options
-    src = unparse(pc.node)
-    if "default_inline_tag + ' { '" not in src:
-        raise AnalysisError('process_cmdline: emission of the default tag not recognised')
-    bc = repo.func('Config.build_from_cmdline')
-    calls = [c for c in calls_in(bc.node) if is_method_call(c, member='process_cmdline', ayns=False)]
-    if len(calls) != 1:
-        raise AnalysisError('build_from_cmdline does not call process_cmdline once')
-    if get_kw(calls[0], 'default_inline_tag') is not None or len(calls[0].args) > 2:
-        run.violation('C08.R4', bc, unparse(calls[0]), 'build_from_cmdline overrides the default inline tag', node=calls[0])
+    # the tag is actually emitted for inline options (evaluated)
+    yamls, filenames, raws = _cmdline(repo, [c[0] for c in CMD_CASES] + ['!force p.q=1', 'conf/file.yaml', '{a: 1}'])
+    bad = []
+    for (opt, _, _), text in zip(CMD_CASES, yamls):
+        rt, chain, _ = _key_chain(text)
+        if rt != tag:
+            bad.append('the option %r becomes %r: the document is not tagged %s' % (opt, text[:60], tag))
+    if yamls[len(CMD_CASES) + 1] != 'conf/file.yaml' or raws[len(CMD_CASES) + 1] is not False or yamls[len(CMD_CASES) + 2] != '{a: 1}':
+        bad.append('file names / raw yaml arguments are not passed through unchanged')
+    if bad:
+        run.violation('C08.R4', pc, 'emission of the default tag', '; '.join(bad[:2]))
     else:
-        run.ok('C08.R4', bc, unparse(calls[0])[:100], 'default tag left in place')
+        run.ok('C08.R4', pc, 'inline options are wrapped as %s { ... } (%d options evaluated)' % (tag, len(CMD_CASES)), 'files and raw yaml untouched')
+    bc = repo.func('Config.build_from_cmdline')
+    from . import tr
+    calls = [e_ for p in tr.paths_of(repo, bc, no_inline={'process_cmdline', 'build'}, follow_exceptions=False) for e_ in p.events if e_.kind == 'call' and e_.attr == 'process_cmdline']
+    if not calls:
+        raise AnalysisError('build_from_cmdline does not call process_cmdline')
+    if any('default_inline_tag' in c.kw or len(c.args) > 2 for c in calls):
+        run.violation('C08.R4', bc, calls[0].callee, 'build_from_cmdline overrides the default inline tag')
+    else:
+        run.ok('C08.R4', bc, calls[0].callee, 'default tag left in place')
 
 
 def r5(repo, run):
-    """list indices of an override path `a[i][j]` are read right-to-left and must be restored to written order"""
+    """an override `a.b[i][j]=v` addresses the path a -> b -> i -> j in the order written: process_cmdline evaluated on concrete
+    options, the produced text read back with PyYAML's composer"""
     pc = repo.func('Config.process_cmdline')
-    loops = []
-    for f in [pc] + list(pc.nested().values()) + [g for n in pc.nested().values() for g in n.nested().values()]:
-        for w in walk_no_nested(f.node):
-            if isinstance(w, ast.While) and "endswith(']')" in norm(w.test):
-                loops.append((f, w))
-    if len(loops) != 1:
-        raise AnalysisError('process_cmdline: index-parsing loop not recognised (%d)' % len(loops))
-    f, w = loops[0]
-    src = norm(w)
-    from_right = 'rfind(' in src or 'rpartition(' in src or 'rsplit(' in src or 'rindex(' in src
-    adds = [c for c in calls_in(w) if isinstance(c.func, ast.Attribute) and c.func.attr in ('insert', 'append', 'appendleft')]
-    if not adds:
-        raise AnalysisError('process_cmdline: collection of indices not recognised')
-    a = adds[0]
-    coll = norm(a.func.value)
-    prepends = (a.func.attr == 'insert' and norm(a.args[0]) == '0') or a.func.attr == 'appendleft'
-    whole = norm(f.node)
-    reversed_later = ('reversed(%s)' % coll) in whole or ('%s[::-1]' % coll) in whole or ('%s.reverse()' % coll) in whole
-    if from_right and not prepends and not reversed_later:
-        run.violation('C08.R5', f, norm(a), 'bracket groups are taken from the right end of the path component and appended: consecutive indices come out innermost-first, so `grid[0][2]=9` addresses grid[2][0] (another existing path is changed / a mistyped path is accepted)', node=a)
-    elif (not from_right) and prepends and not reversed_later:
-        run.violation('C08.R5', f, norm(a), 'bracket groups are taken from the left and prepended: consecutive indices are reversed', node=a)
+    yamls, filenames, raws = _cmdline(repo, [c[0] for c in CMD_CASES])
+    bad = []
+    for (opt, want, val), text, raw in zip(CMD_CASES, yamls, raws):
+        rt, chain, leaf = _key_chain(text)
+        if chain is None:
+            bad.append('the option %r produces text that does not parse (%s)' % (opt, leaf))
+        elif chain != want:
+            why = 'consecutive indices come out in another order, so `grid[0][2]=9` addresses grid[2][0] (another existing path is changed / a mistyped path is accepted)' if sorted(chain) == sorted(want) else 'the addressed path differs'
+            bad.append('the option %r addresses %s instead of %s: %s' % (opt, ' -> '.join(chain), ' -> '.join(want), why))
+        elif val is not None and leaf != val:
+            bad.append('the option %r assigns %r instead of %r' % (opt, leaf, val))
+        elif raw is not True:
+            bad.append('the option %r is not marked as raw yaml' % opt)
+    run.table('C08.R5', len(CMD_CASES), 'command-line options -> addressed key chain')
+    if bad:
+        run.violation('C08.R5', pc, 'override path of an inline option', '; '.join(bad[:2]))
     else:
-        run.ok('C08.R5', (f.file, a.lineno, f.qualname), norm(a), 'indices restored to written order (%s, %s)' % ('read from the right' if from_right else 'read from the left', 'prepended' if prepends else ('reversed afterwards' if reversed_later else 'appended')))
-    emit = [l for l in ast.walk(pc.node) if isinstance(l, ast.For) and norm(l.iter) in (coll, 'indices')]
-    if not emit:
-        raise AnalysisError('process_cmdline: emission of nested index mappings not recognised')
-    run.ok('C08.R5', (pc.file, emit[0].lineno, pc.qualname), norm(emit[0])[:80], 'one nested mapping per index, in order')
+        run.ok('C08.R5', pc, 'override paths (%d options)' % len(CMD_CASES), 'components and indices in written order, one nested mapping per component')
 
 
 def check(repo, run, tier):
